@@ -325,7 +325,7 @@ def broadcast_shapes(it, sa, sb, node=None):
                 if it.cx.branch(dim_z3(da) == dim_z3(db), node):
                     out.append(da)
                 else:
-                    ops.raise_(RuntimeError, "shape mismatch in broadcasting", node=node)
+                    ops.raise_(RuntimeError, f"shape mismatch in broadcasting: {sa} vs {sb}", node=node)
     return tuple(out), pa, pb
 
 
@@ -442,7 +442,9 @@ def tensor_getitem(it, t: STensor, idx, node=None):
             hi = i.stop
             if is_sym(lo) or is_sym(hi):
                 raise OutOfSubset("symbolic slice bound on tensor", node)
-            if isinstance(d, int):
+            if lo == 0 and hi is None:
+                nd = d                      # full slice
+            elif isinstance(d, int):
                 rng = range(d)[lo:hi]
                 lo, nd = (rng.start if len(rng) else 0), len(rng)
             else:
